@@ -19,6 +19,7 @@ package autodiff
 /* -------------------------------------------------------------------------- */
 
 import "bufio"
+import "fmt"
 import "io"
 import "math"
 import "os"
@@ -222,4 +223,46 @@ func bufioReadLine(reader *bufio.Reader) (string, error) {
   }
   // remove newline character
   return l[0:len(l)-1], err
+}
+
+/* -------------------------------------------------------------------------- */
+
+// Check indices that were read from a file or json object before they are
+// passed to the constructor of a sparse vector.
+func checkSparseIndices(indices []int, n int) error {
+  if n < 0 {
+    return fmt.Errorf("invalid sparse vector: negative dimension")
+  }
+  m := make(map[int]struct{}, len(indices))
+  for _, k := range indices {
+    if k < 0 || k >= n {
+      return fmt.Errorf("invalid sparse vector: index %d out of range for dimension %d", k, n)
+    }
+    if _, ok := m[k]; ok {
+      return fmt.Errorf("invalid sparse vector: index %d appears multiple times", k)
+    }
+    m[k] = struct{}{}
+  }
+  return nil
+}
+
+func checkSparseMatrixIndices(rowIndices, colIndices []int, rows, cols int) error {
+  if rows < 0 || cols < 0 {
+    return fmt.Errorf("invalid sparse matrix: negative dimension")
+  }
+  if len(rowIndices) != len(colIndices) {
+    return fmt.Errorf("invalid sparse matrix: number of row and column indices differs")
+  }
+  m := make(map[[2]int]struct{}, len(rowIndices))
+  for i := 0; i < len(rowIndices); i++ {
+    k := [2]int{rowIndices[i], colIndices[i]}
+    if k[0] < 0 || k[0] >= rows || k[1] < 0 || k[1] >= cols {
+      return fmt.Errorf("invalid sparse matrix: index (%d,%d) out of range for dimension %dx%d", k[0], k[1], rows, cols)
+    }
+    if _, ok := m[k]; ok {
+      return fmt.Errorf("invalid sparse matrix: index (%d,%d) appears multiple times", k[0], k[1])
+    }
+    m[k] = struct{}{}
+  }
+  return nil
 }
